@@ -57,6 +57,7 @@ def run(ctx):
             _kind(ctx, entries, kind, version)
     J.verbatim_payload(ctx, 'C02.D3', entries, fn)
     J.time_fields_exact(ctx, 'C02.D5', entries, fn)
+    J.number_branch(ctx, 'C02.D2', entries, fn)
     # a pre-decoded document can be parsed again: the reader consumes private copies only (clause shared with C05.D3)
     from . import c05
     c05._freshness(ctx, rule='C02.D6')
